@@ -62,6 +62,8 @@ func init() {
 }
 
 func runC04(c *Ctx, r *Report) {
+	r.Rule("C04/priv-steps-plain", "escalate / deescalate send their command with no per-operation options (the send waits for the following prompt)", 2)
+	checkPrivStepsPlain(c, r, "C04/priv-steps-plain")
 	r.Rule("C04/error-classes", "each failure site named by the property wraps the sentinel the property names (timeout / auth / connection / privilege / NETCONF / operation / platform error)", 2)
 	checkErrorClasses(c, r, "C04")
 	r.Rule("C04/refuse-unknown-first", "an unknown target is refused with ErrPrivilegeError before anything that can reach the transport, and only an unknown target is", 3)
